@@ -23,6 +23,7 @@ import (
 //        v <ver> | o <uid> <lazy> <multi> <closed> <down> <up> <frag> | c <uid> <ack> <haspkt> <seq> <datahex>
 //        y <codec letter> | z <uid> <patternhex> | r <uid> <frag>
 //   mtu <domain length> <codec> <multi 0|1>
+//   par <G> <iters> <req …|mtu …> { ; <req …|mtu …> }     the listed ops processed concurrently (c09_par.go)
 //
 // <oracle> is "-" or a comma separated table e:<hexin>=<hexout> / d:<hexin>=<hexout|!> of what the real
 // codec answered on the inputs of this very case.  The codecs are property C08's subject; the Lean model
@@ -305,6 +306,22 @@ func (dnsreqComp) run(op string, rec *[]string) (result, monitor, class string, 
 			return "mtu neg", "", "mtu-neg", false
 		}
 		return fmt.Sprintf("mtu %d", v), "", "mtu", true
+	case "par":
+		G, iters, subs, ok := splitPar(t)
+		if !ok || rec != nil {
+			return "bad-op", "", "bad-op", false
+		}
+		for _, s := range subs {
+			if strings.HasPrefix(s, "par") {
+				return "bad-op", "", "bad-op", false
+			}
+		}
+		var c dnsreqComp
+		res, mon, allOK := runPar(func(op string) (string, string) {
+			r, m, _, _ := c.run(op, nil)
+			return r, m
+		}, G, iters, subs)
+		return res, mon, fmt.Sprintf("par/n%d", (len(subs)+3)/4*4), allOK
 	case "req":
 	default:
 		return "bad-op", "", "bad-op", false
@@ -655,5 +672,102 @@ func (c dnsreqComp) Gen(r *Rand, tier string, emit func(string)) {
 			f = fmt.Sprintf("c %d %d 1 %d %s", r.Intn(1296), r.Intn(65536), r.Intn(65536), hexs(stressBytes(r, ln, r.Intn(5))))
 		}
 		c.emitReq(emit, k, domain, randCache(r), f)
+	}
+	// (7) the same path for several requests at the same moment (the server's handler goroutines)
+	c.genPar(r, thorough, emit)
+}
+
+// genPar: batches of requests processed concurrently.  What varies between the members of a batch is what a shared
+// piece of state would mix up: the user (id, ack, seq, payload — equal lengths, so that a foreign buffer still
+// decodes into a well-formed request, and different lengths), the codec, the command, the domain.
+func (c dnsreqComp) genPar(r *Rand, thorough bool, emit func(string)) {
+	codecs := []string{"T", "S", "U", "W", "X", "V"}
+	tri := []string{"n", "t", "f"}
+	letters := []string{"_", "T", "S", "U", "W", "X", "V", "R", "Y"}
+	G, iters, rounds := 24, 40, 1
+	if thorough {
+		G, iters, rounds = 48, 120, 4
+	}
+	mtuOf := func(k, domain string) int {
+		e, _ := codecOf(k, nil)
+		m := int(sdns.VerifUpstreamMtu(domain, e, false))
+		if m > 1<<20 {
+			m = 0
+		}
+		return m
+	}
+	packet := func(k, domain string, n int) string {
+		return fmt.Sprintf("req %s %s %s - c %d %d 1 %d %s", k, domain, randCache(r), r.Intn(1296), r.Intn(65536), r.Intn(65536),
+			hexs(stressBytes(r, n, r.Intn(2))))
+	}
+	other := func(k, domain string) string {
+		var f string
+		switch r.Intn(6) {
+		case 0:
+			f = fmt.Sprintf("v %d", r.Next()&0xFFFFFFFF)
+		case 1:
+			f = fmt.Sprintf("o %d %s %s %s %s %s %d", r.Intn(1296), tri[r.Intn(3)], tri[r.Intn(3)], tri[r.Intn(3)],
+				letters[r.Intn(len(letters))], letters[r.Intn(len(letters))], r.Intn(70000))
+		case 2:
+			f = "y " + letters[1+r.Intn(len(letters)-1)]
+		case 3:
+			f = fmt.Sprintf("r %d %d", r.Intn(1296), r.Next()&0xFFFFFFFF)
+		case 4:
+			f = fmt.Sprintf("z %d %s", r.Intn(1296), hexs([]byte(base36[:10+r.Intn(26)])))
+		default:
+			f = fmt.Sprintf("c %d %d 0 0 -", r.Intn(1296), r.Intn(65536))
+		}
+		return fmt.Sprintf("req %s %s %s - %s", k, domain, randCache(r), f)
+	}
+	batch := func(members []string) {
+		emit(fmt.Sprintf("par %d %d %s", G, iters, strings.Join(members, " "+parSep+" ")))
+	}
+	domains := append([]string{}, reqDomains...)
+	domains = append(domains, domainOfLen(100), domainOfLen(200))
+	for round := 0; round < rounds; round++ {
+		// one codec, several users
+		for _, k := range codecs {
+			domain := domains[r.Intn(len(domains))]
+			mtu := mtuOf(k, domain)
+			for _, equal := range []bool{true, false} {
+				n := 1 + r.Intn(mtu+1)
+				var ms []string
+				for j := 0; j < 8; j++ {
+					if !equal {
+						n = r.Intn(mtu + 1)
+					}
+					ms = append(ms, packet(k, domain, n))
+				}
+				if !equal { // a retransmission of the first user's request, and a poll
+					ms[6] = ms[0]
+					ms[7] = other(k, domain)
+				}
+				batch(ms)
+			}
+		}
+		// everything mixed: codecs, commands, domains
+		for b := 0; b < 8; b++ {
+			var ms []string
+			for j := 0; j < 12; j++ {
+				k := codecs[(b+j)%len(codecs)]
+				if b%4 == 3 && j%2 == 0 {
+					k = "V" // every other member Base128 next to the rest
+				}
+				domain := domains[r.Intn(len(domains))]
+				if b%2 == 0 {
+					domain = domains[b/2%len(domains)]
+				}
+				if j%3 == 2 {
+					ms = append(ms, other(k, domain))
+				} else {
+					ms = append(ms, packet(k, domain, r.Intn(mtuOf(k, domain)+3)))
+				}
+			}
+			if b == 7 { // registry codecs that are not selectable share the registry too
+				ms[1] = packet("R", "example.org", 20)
+				ms[3] = fmt.Sprintf("mtu %d V 0", r.Intn(200))
+			}
+			batch(ms)
+		}
 	}
 }
